@@ -20,9 +20,9 @@ import (
 // c08Limits: the boundary matrix. The encoded size of Req{data: n bytes} is n + 2 (n < 128) or
 // n + 3 (n < 16384); sizes are chosen so that the encoded size sits exactly around the limit.
 func c08Limits(c *Ctx) {
-	limits := []int{64, 300, 1000}
+	limits := []int{16, 32, 64, 300, 1000} // 16 and 32: a whole over-limit frame fits the 64-byte pool buffer
 	if c.Thorough() {
-		limits = append(limits, 16, 5000, 70000)
+		limits = append(limits, 48, 5000, 70000)
 	}
 	for _, limit := range limits {
 		for _, sendLimit := range []int{1 << 20, limit / 2} {
@@ -143,15 +143,17 @@ func c08Limits(c *Ctx) {
 						c.SpecFail("http-stream-httpbody", in, fmt.Sprintf("%d, %d of %d bytes", rec.Code, len(all), len(big)), "all bytes in chunks within the limit", "C08/http-stream-httpbody/bytes-lost", "a streamed upload within the per-chunk limit loses bytes or is refused")
 					}
 				}
-				// HTTP unary protobuf (readAll) — data with EOF and separately
-				for _, eofd := range []bool{false, true} {
+				// HTTP unary protobuf (readAll) — data with EOF and separately, body length unknown and announced
+				for ei, eofd := range []bool{false, true, false, true} {
+					serveStreamKnownLength = ei >= 2
 					sfx.reset([][]byte{nil})
 					rec, pn := sfx.serveStream("POST", "/c06/unary", map[string]string{"Content-Type": "application/protobuf"}, enc, nil, eofd, false)
 					judge("http-unary-proto", sizeIn(fmt.Sprintf("eofWithData=%v", eofd)), reachedWith(), rec.Code != 200, pn)
 					// gzip request body: size after decompression counts
 					sfx.reset([][]byte{nil})
 					rec, pn = sfx.serveStream("POST", "/c06/unary", map[string]string{"Content-Type": "application/protobuf", "Content-Encoding": "gzip"}, gzipBytes(enc), nil, eofd, false)
-					judge("http-unary-gzip", sizeIn(fmt.Sprintf("eofWithData=%v", eofd)), reachedWith(), rec.Code != 200, pn)
+					judge("http-unary-gzip", sizeIn(fmt.Sprintf("eofWithData=%v content-length-known=%v compressed=%d", eofd, ei >= 2, len(gzipBytes(enc)))), reachedWith(), rec.Code != 200, pn)
+					serveStreamKnownLength = false
 				}
 				// HTTP streaming protobuf and JSON
 				{
@@ -159,6 +161,15 @@ func c08Limits(c *Ctx) {
 					sfx.reset(nil)
 					rec, pn := sfx.serveStream("POST", "/c06/up", map[string]string{"Content-Type": "application/protobuf"}, wire, genSched(c, len(wire)), c.Rng.Intn(2) == 0, false)
 					judge("http-stream-proto", sizeIn(""), reachedWith(), rec.Code != 200, pn)
+					// the whole frame in one read, alone and behind a small message (look-ahead carried over)
+					sfx.reset(nil)
+					rec, pn = sfx.serveStream("POST", "/c06/up", map[string]string{"Content-Type": "application/protobuf"}, wire, nil, true, false)
+					judge("http-stream-proto", sizeIn("one-read"), reachedWith(), rec.Code != 200, pn)
+					small, _ := proto.Marshal(reqWithData(fx, []byte{7}))
+					wire2 := append(append(protowire.AppendVarint(nil, uint64(len(small))), small...), wire...)
+					sfx.reset(nil)
+					rec, pn = sfx.serveStream("POST", "/c06/up", map[string]string{"Content-Type": "application/protobuf"}, wire2, nil, false, false)
+					judge("http-stream-proto", sizeIn("one-read-after-a-small-message"), reachedWith(), rec.Code != 200, pn)
 				}
 				{
 					// JSON: pad the data so that the JSON text has exactly target bytes
@@ -236,14 +247,17 @@ func c08Limits(c *Ctx) {
 					overJ := len(j) > limit
 					sfx.reset(nil)
 					hts := fx.HTTPServer()
-					delivered, err := wsSendOne(hts.URL+"/c06/ws", j)
-					reached := len(sfx.got) > 0 && bytes.Equal(sfx.got[0], d)
-					in := fmt.Sprintf("limit=%d json=%d", limit, len(j))
-					c.Eval("ws", in, true)
-					if overJ && reached {
-						c.SpecFail("ws", in, "delivered", "an error", "C08/ws/over-limit-delivered", "a WebSocket message over the limit reaches the handler")
-					} else if !overJ && (!reached || !delivered) {
-						c.SpecFail("ws", in, fmt.Sprint("refused ", err), "delivered", "C08/ws/within-limit-refused", "a WebSocket message within the limit is refused")
+					for _, frag := range []int{0, 2, 5} { // one frame, or the message fragmented into 2 / 5 frames
+						sfx.reset(nil)
+						delivered, err := wsSendOne(hts.URL+"/c06/ws", j, frag)
+						reached := len(sfx.got) > 0 && bytes.Equal(sfx.got[0], d)
+						in := fmt.Sprintf("limit=%d json=%d frames=%d", limit, len(j), max(frag, 1))
+						c.Eval("ws", in, true)
+						if overJ && reached {
+							c.SpecFail("ws", in, "delivered", "an error", "C08/ws/over-limit-delivered", "a WebSocket message over the limit reaches the handler")
+						} else if !overJ && (!reached || !delivered) {
+							c.SpecFail("ws", in, fmt.Sprint("refused ", err), "delivered", "C08/ws/within-limit-refused", "a WebSocket message within the limit is refused")
+						}
 					}
 				}
 				// send limit: reply of `target` encoded bytes against sendLimit
@@ -317,7 +331,7 @@ func c08Limits(c *Ctx) {
 	}
 }
 
-func wsSendOne(url string, msg []byte) (bool, error) {
+func wsSendOne(url string, msg []byte, frags ...int) (bool, error) {
 	url = "ws" + strings.TrimPrefix(url, "http")
 	ctx, cancel := context.WithTimeout(context.Background(), 5*time.Second)
 	defer cancel()
@@ -327,7 +341,22 @@ func wsSendOne(url string, msg []byte) (bool, error) {
 	}
 	defer conn.Close()
 	conn.SetDeadline(time.Now().Add(3 * time.Second))
-	if err := wsutil.WriteClientMessage(conn, ws.OpText, msg); err != nil {
+	if n := append(frags, 0)[0]; n >= 2 && len(msg) >= n {
+		step := len(msg) / n
+		for i := 0; i < n; i++ {
+			part := msg[i*step : (i+1)*step]
+			if i == n-1 {
+				part = msg[i*step:]
+			}
+			op := ws.OpContinuation
+			if i == 0 {
+				op = ws.OpText
+			}
+			if err := ws.WriteFrame(conn, ws.MaskFrameInPlace(ws.NewFrame(op, i == n-1, append([]byte(nil), part...)))); err != nil {
+				return false, err
+			}
+		}
+	} else if err := wsutil.WriteClientMessage(conn, ws.OpText, msg); err != nil {
 		return false, err
 	}
 	_, op, err := wsutil.ReadServerData(conn)
